@@ -100,3 +100,11 @@ Theorem C06_CropAndPad_mask_values : forall P keep pm v cp pp pv pvm rr rc rs ip
   fills_in (fun q => P q \/ q = pvm) v'.
 Proof. exact CropAndPad_mask_values. Qed.
 Print Assumptions C06_CropAndPad_mask_values.
+
+(* every entry of `masks` is handled by apply_to_mask (hand model Dispatch.dual_apply, tied to the real target table
+   by harness/corr_dispatch.py) -- so the per-class mask theorems above cover the list target as well *)
+From DV.model Require Import Dispatch.
+Theorem C06_every_entry_of_masks_goes_through_apply_to_mask : forall fi fm fb fk fd l,
+  dual_target fi fm fb fk fd "masks" (VList l) = VList (map fm l).
+Proof. intros. apply masks_entrywise. Qed.
+Print Assumptions C06_every_entry_of_masks_goes_through_apply_to_mask.
